@@ -101,6 +101,9 @@ def main():
                 if not r["applies"]:
                     stale.append(sid); print("%-8s STALE-PATCH %s" % (sid, r["out"][-120:].replace("\n", " "))); continue
                 st = "caught" if own in r["properties"] else ("cross-only" if r["properties"] else "MISSED")
+                if r["rules"] and all(x.endswith("-load") for x in r["rules"]):
+                    st = "MISSED"  # the patched tree does not load (a stale patch that no longer compiles): not a verdict
+                    print("%-8s DOES-NOT-COMPILE (reported only as a load failure)" % sid)
                 (missed if st == "MISSED" else cross if st == "cross-only" else []).append(sid)
                 print("%-8s %-10s %s %s" % (sid, st, r["properties"], r["rules"]))
                 rows.append({"id": sid, "property": own, "caught_by_properties": r["properties"], "caught_by_rules": r["rules"]})
